@@ -160,6 +160,9 @@ func runRefresh(c Case) (*ev.Failure, bool) {
 	in := exporter.ExporterInput{CollectorAddress: peer.Addr, CollectorProtocol: "udp", ObservationDomainID: 11, TempRefTimeout: 3600}
 	if c.Kind == "ticker" {
 		in.TempRefTimeout = 1
+		// an application that fills one configuration for any transport: the connection-check
+		// interval means nothing over udp
+		in.CheckConnInterval = time.Duration(c.CheckIntervalMs) * time.Millisecond
 	}
 	ep, err := exporter.InitExportingProcess(in)
 	if err != nil {
@@ -711,6 +714,7 @@ func TestC14(t *testing.T) {
 			if i%3 == 2 {
 				c.CloseAfterUs = 450000
 			}
+			c.CheckIntervalMs = []int{0, 60000, 0, 3600000}[i%4]
 			tickerFails[i], _ = runRefresh(c)
 		}(i)
 	}
